@@ -107,6 +107,9 @@ Definition chk_interest (liab0 rate liab1 : Q) : bool :=
 Definition chk_nav (units tv nav : Q) : bool := approx (unit_net_value {| pf_units := units; pf_static := 1 |} tv) nav.
 Definition chk_deposit_units (units tv0 tv1 units1 : Q) : bool :=
   approx_scale (qabs units) (pf_units (pf_deposit {| pf_units := units; pf_static := 1 |} tv0 tv1)) units1.
+(* a flow into a portfolio whose unit net value is 0 must be refused *)
+Definition chk_flow_guard (units tv0 : Q) (raised : bool) : bool :=
+  match pf_deposit_checked {| pf_units := units; pf_static := 1 |} tv0 tv0 with None => raised | Some _ => true end.
 Definition chk_latch (units tv static1 : Q) : bool := approx (pf_static (latch {| pf_units := units; pf_static := 1 |} tv)) static1.
 Definition chk_daily_returns (units static tv r : Q) : bool := approx (daily_returns {| pf_units := units; pf_static := static |} tv) r.
 
